@@ -368,7 +368,7 @@ SEEDS = (0, 1, 2, 7, 123, 2**31 - 1, 2**31 + 1, 2**63, 2**64 + 5)
 
 def gen_subject(rng):
     sim = rng.weighted(SIMS)
-    opts = {"allow_no_terminal": False, "postselect": rng.chance(0.3)}
+    opts = {"allow_no_terminal": False, "postselect": rng.chance(0.3), "correlated_dyne_p": 0.3}
     sub = gen.finalise(gen.gen_subject(rng.randrange(2**62), sim, shots=rng.randrange(1, 17), **opts))
     sub["config"]["seed_sequence"] = rng.pick(SEEDS) if rng.chance(0.4) else rng.randrange(1, 10**9)
     return sub
@@ -388,6 +388,13 @@ def features_of(world, stats):
         f.append("interferer:" + k)
     if stats.get("task_failures_injected"):
         f.append("task-failure")
+    if world.get("global_seed", 2024) != 2024:
+        # the declared state of the process-global generators (random, legacy numpy.random) at the start of the
+        # world differs from the reference's: not a perturbation by itself, but it is what a minimised world
+        # keeps when a result depends on a process-global generator
+        f.append("process-global-rng-state")
+    if world.get("urandom_seed", 1) != 1 and stats.get("urandom_calls"):
+        f.append("os-urandom-stream")
     return f
 
 
@@ -433,7 +440,7 @@ def judge_world(sc):
     if stats["native_calls"]:
         counters["hc_values"] = {str(world["native"]["hc"]): 1}
         counters["team_sizes"] = {str(world["native"].get("team", 0)): 1}
-    rec = {"digest": log.digest(), "counters": counters, "nontrivial": bool(feats), "sets": {"shared_access_orders": [repr(o) for o in stats["access_order"]]}, "facts": facts}
+    rec = {"digest": log.digest(), "counters": counters, "nontrivial": bool([f for f in feats if f not in ("process-global-rng-state", "os-urandom-stream")]), "sets": {"shared_access_orders": [repr(o) for o in stats["access_order"]]}, "facts": facts}
     bad = outputs_equal(ref, out)
     if bad is None:
         rec["status"] = "pass"
@@ -740,7 +747,7 @@ def shrink(sc, rec, max_runs=40):
             cur = cand
         i -= 1
     # 2. switch off whole dimensions
-    for key, val in (("task_failure", None), ("native", None), ("numba_threads", 1), ("fine", 0.0), ("caches", "keep"), ("dask", False)):
+    for key, val in (("task_failure", None), ("native", None), ("numba_threads", 1), ("fine", 0.0), ("caches", "keep"), ("dask", False), ("global_seed", 2024), ("urandom_seed", 1)):
         if cur["world"].get(key) != val:
             cand = copy.deepcopy(cur)
             cand["world"][key] = val
